@@ -86,37 +86,59 @@ def Rd (g : Cfg) (r : AReq) (h : HState) (e : Run.Env) : Prop :=
 
 /-- The role of the request and what it means for the role-dependent fields. -/
 inductive Shape (g : Cfg) : Prop
-  | responder (hr : g.p.role = 1) (hb : Body g.p.id 5 g.content g.body)
+  | responderU (hr : g.p.role = 1) (hb : Body g.p.id 5 g.content g.body)
       (hf : NoiseFits (alignedBufsize g.b) g.body) (hp : g.pad.length < 256) (hX2 : g.X2 = [])
       (hX : g.X = serAll g.body ++ g.term.ser) (hU : g.U = g.term.ser)
       (hOt : g.Ot = owedStream g.p.id 5 g.mc g.body) (hrv : g.revs = [rEvent g.content])
       (hs : g.hscript = script g.data g.st)
-      (hfu : alignedBufsize g.b / 32 + wcost g.data.length + 12 ≤ 1000)
+      (hfu : wcost g.data.length + 12 ≤ 1000)
   | authorizer (hr : g.p.role = 2) (hX : g.X = []) (hU : g.U = []) (hOt : g.Ot = []) (hrv : g.revs = [])
       (hs : g.hscript = oscript g.data g.st) (hfu : wcost g.data.length + 4 ≤ 1000)
-  | filter (hr : g.p.role = 3) (hb : Body g.p.id 5 g.content g.body) (hb2 : Body g.p.id 8 g.content2 g.body2)
+  | filterU (hr : g.p.role = 3) (hb : Body g.p.id 5 g.content g.body) (hb2 : Body g.p.id 8 g.content2 g.body2)
       (hf : NoiseFits (alignedBufsize g.b) g.body) (hf2 : NoiseFits (alignedBufsize g.b) g.body2)
       (hp : g.pad.length < 256) (hp2 : g.pad2.length < 256)
       (hX2 : g.X2 = serAll g.body2 ++ g.term2.ser) (hX : g.X = serAll g.body ++ (g.term.ser ++ g.X2))
       (hU : g.U = g.term2.ser)
       (hOt : g.Ot = owedStream g.p.id 5 g.mc g.body ++ owedStream g.p.id 8 g.mc g.body2)
       (hrv : g.revs = [rEvent g.content, rEvent g.content2]) (hs : g.hscript = fscript g.data g.st)
-      (hfu : alignedBufsize g.b / 16 + wcost g.data.length + 24 ≤ 1000)
+      (hfu : wcost g.data.length + 24 ≤ 1000)
+
+/-- `Shape.responderU` with the (stronger) fuel bound that older statements carry: the buffer size
+`alignedBufsize b` plays no role any more (`handlerFuel` has `4·cap`). -/
+theorem Shape.responder {g : Cfg} (hr : g.p.role = 1) (hb : Body g.p.id 5 g.content g.body)
+    (hf : NoiseFits (alignedBufsize g.b) g.body) (hp : g.pad.length < 256) (hX2 : g.X2 = [])
+    (hX : g.X = serAll g.body ++ g.term.ser) (hU : g.U = g.term.ser)
+    (hOt : g.Ot = owedStream g.p.id 5 g.mc g.body) (hrv : g.revs = [rEvent g.content])
+    (hs : g.hscript = script g.data g.st)
+    (hfu : alignedBufsize g.b / 32 + wcost g.data.length + 12 ≤ 1000) : g.Shape :=
+  .responderU hr hb hf hp hX2 hX hU hOt hrv hs (by omega)
+
+theorem Shape.filter {g : Cfg} (hr : g.p.role = 3) (hb : Body g.p.id 5 g.content g.body)
+    (hb2 : Body g.p.id 8 g.content2 g.body2)
+    (hf : NoiseFits (alignedBufsize g.b) g.body) (hf2 : NoiseFits (alignedBufsize g.b) g.body2)
+    (hp : g.pad.length < 256) (hp2 : g.pad2.length < 256)
+    (hX2 : g.X2 = serAll g.body2 ++ g.term2.ser) (hX : g.X = serAll g.body ++ (g.term.ser ++ g.X2))
+    (hU : g.U = g.term2.ser)
+    (hOt : g.Ot = owedStream g.p.id 5 g.mc g.body ++ owedStream g.p.id 8 g.mc g.body2)
+    (hrv : g.revs = [rEvent g.content, rEvent g.content2]) (hs : g.hscript = fscript g.data g.st)
+    (hfu : alignedBufsize g.b / 16 + wcost g.data.length + 24 ≤ 1000) : g.Shape :=
+  .filterU hr hb hb2 hf hf2 hp hp2 hX2 hX hU hOt hrv hs (by omega)
 
 /-- The hypotheses on a request. -/
 structure OK (g : Cfg) : Prop where
   wf : WellFormedPreamble g.p g.recs
   pairs : ∀ q ∈ g.p.pairs, (NV.enc q).length ≤ alignedBufsize g.b
   noise : NoiseFits (alignedBufsize g.b) g.recs
-  /-- the role; includes a bound for the model fuel: `handlerPoll` gets at least `1000 + 4·|input|` units per poll (plus `4·cap`, not used here) -/
+  /-- the role; includes a bound for the model fuel: `handlerPoll` gets `1000 + 4·|input| + 4·cap` units per poll (`Cfg.Rd.fuel`); the `4·cap` pays for the `readAll` loop over the
+  buffer, so the bound is on the handler's own output only -/
   shape : g.Shape
 end Cfg
 
 theorem Cfg.OK.wfuel {g : Cfg} (ok : g.OK) : wcost g.data.length + 4 ≤ 1000 := by
   cases ok.shape with
-  | responder hr hb hf hp hX2 hX hU hOt hrv hs hfu => omega
+  | responderU hr hb hf hp hX2 hX hU hOt hrv hs hfu => omega
   | authorizer hr hX hU hOt hrv hs hfu => exact hfu
-  | filter hr hb hb2 hf hf2 hp hp2 hX2 hX hU hOt hrv hs hfu => omega
+  | filterU hr hb hb2 hf hf2 hp hp2 hX2 hX hU hOt hrv hs hfu => omega
 
 theorem cap24 (g : Cfg) : 24 ≤ g.cap := alignedBufsize_ge g.b
 
@@ -236,11 +258,11 @@ def URec (e : Rec) : Prop := IdleNoise e ∧ e.content = [] ∧ (e.rtype = 5 ∨
 
 theorem U_shape {g : Cfg} (ok : g.OK) : ∃ us : List Rec, g.U = serAll us ∧ ∀ e ∈ us, URec e := by
   cases ok.shape with
-  | responder hr hb hf hp hX2 hX hU hOt hrv hs hfu =>
+  | responderU hr hb hf hp hX2 hX hU hOt hrv hs hfu =>
     exact ⟨[g.term], by rw [hU, C02.serAll_single], fun e he => by
       rw [List.mem_singleton.1 he]; exact ⟨term_idle ok hp, rfl, Or.inl rfl⟩⟩
   | authorizer hr hX hU hOt hrv hs hfu => exact ⟨[], by rw [hU]; rfl, fun e he => by cases he⟩
-  | filter hr hb hb2 hf hf2 hp hp2 hX2 hX hU hOt hrv hs hfu =>
+  | filterU hr hb hb2 hf hf2 hp hp2 hX2 hX hU hOt hrv hs hfu =>
     exact ⟨[g.term2], by rw [hU, C02.serAll_single], fun e he => by
       rw [List.mem_singleton.1 he]; exact ⟨term2_idle ok hp2, rfl, Or.inr rfl⟩⟩
 
@@ -755,6 +777,27 @@ theorem close_start_eq {g : Cfg} {r : AReq} {t : Transport} (he : REnd g.N r t.i
 theorem handlerFuel_ge (e : Run.Env) (r : AReq) : 1000 + 4 * e.tr.input.length ≤ handlerFuel e r := by
   unfold handlerFuel; omega
 
+theorem handlerFuel_ge' (e : Run.Env) (r : AReq) :
+    1000 + 4 * e.tr.input.length + 4 * r.sp.cap ≤ handlerFuel e r := by
+  unfold handlerFuel; omega
+
+theorem HRead.cap {K : RCtx} {rest : List HOp} {L P : Bytes} {r : AReq} {h : HState} {e : Run.Env}
+    (hr : HRead K rest L P r h e) : r.sp.cap = K.cap := by
+  obtain ⟨_, hs⟩ := hr.rem
+  obtain ⟨_, hi⟩ := hs.inv
+  exact hi.capK
+
+/-- a handler suspended in a `readAll` of the request works on a parser with the request's buffer -/
+theorem Cfg.Rd.cap {g : Cfg} {r : AReq} {h : HState} {e : Run.Env} (hr : g.Rd r h e) : r.sp.cap = g.cap := by
+  rcases hr with ⟨_, hr⟩ | ⟨_, hr | ⟨hr, _⟩⟩
+  · exact hr.cap
+  · exact hr.cap
+  · exact hr.cap
+
+theorem Cfg.Rd.fuel {g : Cfg} {r : AReq} {h : HState} {e : Run.Env} (hr : g.Rd r h e) :
+    1000 + 4 * e.tr.input.length + 4 * g.cap ≤ handlerFuel e r := by
+  rw [← hr.cap]; exact handlerFuel_ge' e r
+
 theorem HOut.mono {W : WCtx} {Rd Rd' : AReq → HState → Run.Env → Prop} {e : Run.Env}
     {out : AReq × HState × Run.Env × HRes} (h : HOut W Rd e out) (hm : ∀ r h e, Rd r h e → Rd' r h e) :
     HOut W Rd' e out := by
@@ -766,10 +809,11 @@ theorem HOut.mono {W : WCtx} {Rd Rd' : AReq → HState → Run.Env → Prop} {e 
 
 /-- One poll of the handler suspended in (or starting) one of its reads, for both roles that read. -/
 theorem rd_poll {g : Cfg} (ok : g.OK) {r : AReq} {h : HState} {e : Run.Env} (hr : g.Rd r h e) (hb : Ben e.tr)
-    {fuel : Nat} (hfu : 1000 + 4 * e.tr.input.length ≤ fuel) :
+    {fuel : Nat} (hfu : 1000 + 4 * e.tr.input.length + 4 * g.cap ≤ fuel) :
     HOut g.Wc g.Rd e (handlerPoll fuel r h e) := by
+  have hcap : g.cap = alignedBufsize g.b := rfl
   cases ok.shape with
-  | responder hr1 hb1 hf hp hX2 hX hU hOt hrv hs hfu0 =>
+  | responderU hr1 hb1 hf hp hX2 hX hU hOt hrv hs hfu0 =>
     rcases hr with ⟨_, hr⟩ | ⟨h3, _⟩
     · have hK := kok ok hb1 hf hp [] (fun r hr => by cases hr) (fun r hr => by cases hr) (by rw [hX2]; rfl) (by rw [hX, hX2, List.append_nil])
       have hfinal : g.K.final = true := by simp [RCtx.final, Cfg.K, hr1, nextInputStream, RT.stdin]
@@ -779,7 +823,7 @@ theorem rd_poll {g : Cfg} (ok : g.OK) {r : AReq} {h : HState} {e : Run.Env} (hr 
       omega
     · omega
   | authorizer hr2 hX hU hOt hrv hs hfu0 => rcases hr with ⟨h1, _⟩ | ⟨h3, _⟩ <;> omega
-  | filter hr3 hb1 hb2 hf hf2 hp hp2 hX2 hX hU hOt hrv hs hfu0 =>
+  | filterU hr3 hb1 hb2 hf hf2 hp hp2 hX2 hX hU hOt hrv hs hfu0 =>
     rcases hr with ⟨h1, _⟩ | ⟨_, hr⟩
     · omega
     · obtain ⟨hK1, hK2, hfo⟩ := kokF ok hr3 hb1 hb2 hf hf2 hp hp2 hX2 hX
@@ -887,7 +931,7 @@ theorem rinv_start {g : Cfg} (ok : g.OK) (hrole : g.p.role = 1 ∨ g.p.role = 3)
 /-- the first poll of the handler, by role -/
 theorem first_poll {g : Cfg} (ok : g.OK) {e1 : Bytes} {e : Run.Env} (hlen : e1.length ≤ g.cap)
     (hwire : e1 ++ e.tr.input = g.X) (hlog : e.tr.wlog = g.L1) (hm : e.mutex = none) (hb : Ben e.tr)
-    {fuel : Nat} (hfu : 1000 + 4 * e.tr.input.length ≤ fuel) :
+    {fuel : Nat} (hfu : 1000 + 4 * e.tr.input.length + 4 * g.cap ≤ fuel) :
     HOut g.Wc g.Rd e (handlerPoll fuel (AReq.new (Str.Parser.fromParser g.cap g.p.request e1 g.mc))
       { ops := g.hscript, propagate := true } e) := by
   have hrst : g.p.role = 1 ∨ g.p.role = 3 →
@@ -896,7 +940,7 @@ theorem first_poll {g : Cfg} (ok : g.OK) {e1 : Bytes} {e : Run.Env} (hlen : e1.l
     refine ⟨⟨e1, rinv_start ok hrole hlen hwire⟩, ?_, Or.inl hm, ⟨[], by rw [hlog, List.append_nil], rfl⟩⟩
     rw [hm]; exact lockInv_free rfl
   cases ok.shape with
-  | responder hr1 hb1 hf hp hX2 hX hU hOt hrv hs hfu0 =>
+  | responderU hr1 hb1 hf hp hX2 hX hU hOt hrv hs hfu0 =>
     rw [hs]
     exact rd_poll ok (Or.inl ⟨hr1, rfl, rfl, rfl, [], hrst (Or.inl hr1)⟩) hb hfu
   | authorizer hr2 hX hU hOt hrv hs hfu0 =>
@@ -910,7 +954,7 @@ theorem first_poll {g : Cfg} (ok : g.OK) {e1 : Bytes} {e : Run.Env} (hlen : e1.l
       rfl, rfl, rfl, hlen, Str.SInv_fromParser g.cap g.p.request e1 g.mc hlen (pid_lt ok).2⟩
     show e1 ++ e.tr.input = g.U
     rw [hU, he1.1, he1.2]; rfl
-  | filter hr3 hb1 hb2 hf hf2 hp hp2 hX2 hX hU hOt hrv hs hfu0 =>
+  | filterU hr3 hb1 hb2 hf hf2 hp hp2 hX2 hX hU hOt hrv hs hfu0 =>
     rw [hs]
     have hrd : HRead g.K (.setStream 8 :: .readAll :: oscript g.data g.st) g.L1 []
         (AReq.new (Str.Parser.fromParser g.cap g.p.request e1 g.mc))
@@ -942,10 +986,11 @@ theorem final_poll {g : Cfg} (ok : g.OK) {c1 : Conn} {F1 rest : Bytes} {t' : Tra
     · show hsEvent g.p.request ∈ t'.events ++ [hsEvent g.p.request]
       simp
   have hben2 : Ben (t'.ev (hsEvent g.p.request)) := hben1.wstep hwsE
-  have hfuelH : 1000 + 4 * t'.input.length ≤
+  have hfuelH : 1000 + 4 * t'.input.length + 4 * g.cap ≤
       handlerFuel ((⟨t', c1.env.mutex, c1.env.segs⟩ : Run.Env).ev (hsEvent g.p.request))
         (AReq.new (Str.Parser.fromParser g.cap g.p.request e1 g.mc)) :=
-    handlerFuel_ge ((⟨t', c1.env.mutex, c1.env.segs⟩ : Run.Env).ev (hsEvent g.p.request)) _
+    handlerFuel_ge' ((⟨t', c1.env.mutex, c1.env.segs⟩ : Run.Env).ev (hsEvent g.p.request))
+      (AReq.new (Str.Parser.fromParser g.cap g.p.request e1 g.mc))
   have hcore := handler_core ok
     (c := ⟨.handler (AReq.new (Str.Parser.fromParser g.cap g.p.request e1 g.mc))
             { ops := g.hscript, propagate := true },
